@@ -192,14 +192,42 @@ class HDict:
         return HDict(self.items)
 
 
+def _memo(f):
+    """Memoise an element function on the identity of the index terms (element functions form DAGs:
+    without this, k chained updates are evaluated 2^k times)."""
+    if getattr(f, "_memoised", False):
+        return f
+    cache = {}
+
+    def g(idx):
+        key = tuple((i.get_id() if hasattr(i, "get_id") else ("c", i)) for i in idx)
+        hit = cache.get(key)
+        if hit is None:
+            hit = (f(idx), idx)        # keep idx alive so ids are not recycled
+            cache[key] = hit
+        return hit[0]
+    g._memoised = True
+    g._raw = f
+    return g
+
+
 class HArr:
     """numpy array: symbolic shape, dtype and a pointwise element function idx -> scalar Val."""
 
     def __init__(self, shape, dtype, elem, tag=None):
-        self.shape, self.dtype, self.elem, self.tag = tuple(shape), dtype, elem, tag
+        self.shape, self.dtype, self.tag = tuple(shape), dtype, tag
+        self.elem = elem
+
+    @property
+    def elem(self):
+        return self._elem
+
+    @elem.setter
+    def elem(self, f):
+        self._elem = _memo(f)
 
     def copy(self):
-        return HArr(self.shape, self.dtype, self.elem, self.tag)
+        return HArr(self.shape, self.dtype, self._elem, self.tag)
 
 
 # ---- helpers ------------------------------------------------------------------------------
